@@ -76,6 +76,77 @@ CLAIMED["C18"] = (
     "DESIGN.md §5 C18",
 )
 
+CLAIMED["C02"] = (
+    "model_checking",
+    "bounded-exhaustive enumeration of path sets in every arrival order plus explicit-state BFS over single-prefix histories of the real Table, against a reference comparator written from the statement",
+    "All ordered pairs of a 1152-kind IPv4 product and a 384-kind EVPN product (2 colliding values per decision step: LLGR-stale flag/community, LOCAL_PREF, 9 AS_PATH shapes up to 510 hops, ORIGIN, 5 roles, GR-stale, CLUSTER_LIST, router-id/ORIGINATOR_ID incl. complete ties, eligibility, MAC mobility) and triples over a cover, each inserted in every arrival order into a real Table; BFS over 7 packs of histories (insert/replace/remove/drop/restale/restale_llgr/purges/next-hop flips with session restarts). After every insert/step: ranked list sorted by the reference and containing exactly the eligible paths, best is reference-maximal, ecmp_paths is the tie prefix, Global and RsLocal views agree, result equals a from-scratch table of the current path set. Both dev (overflow checks) and release profiles.",
+    "Table API level only (the daemon's use of the ranking is C01/C20). Both readings of MAC-mobility present-vs-absent accepted. Built by a helper sub-agent from DESIGN §5 C02; reviewed through its findings (6 defects, all repaired).",
+    "DESIGN.md §5 C02",
+)
+CLAIMED["C03"] = (
+    "exploration",
+    "bounded-exhaustive mutation enumeration of valid frames through the real decoders (BGP under 16 codec configurations per family, RTR, BFD), tokio Decoder contract as oracle",
+    "Seeds: valid frames for all 19 families from the generators (every NLRI value, next hop, attribute kind, OPEN capability kind, full-size 4096 / 65535-byte UPDATEs, long label chains); menu: every length field located by an independent frame walker set to boundary values incl. sums reaching 2^16, every type/flag byte over 256 values, body bytes to boundary values, truncation at every byte, one trailing byte; stream level every split offset / glued frames / byte-wise delivery; RTR versions x types 0-255 x length menu x every split; BFD every value of the fixed fields and every truncation. Quick: every single mutation (2.0e7 decoder calls); thorough: every pair of a full-menu and a boundary-menu mutation (1e9 calls). Oracle: no panic (dev and release), terminates under a watchdog, exactly one of message / need-more / error, Some => consumed, no need-more on a complete frame.",
+    "Coverage is the mutation closure of valid frames, not arbitrary byte strings. Allocation bombs are argued from the code (all lengths <= 16 bits), not observed. Built by a helper sub-agent; 5 root causes found and repaired.",
+    "DESIGN.md §5 C03",
+)
+CLAIMED["C04"] = (
+    "exploration",
+    "bounded-exhaustive enumeration of messages x capability pairs through the real encoder, independent frame walker + peer-side decode as oracle",
+    "OPEN (every capability kind, 0-19 families, capability lists crossing 255 bytes), UPDATE reach/unreach/EoR for all 19 families with entry counts 0,1,2,k-1,k,k+1,2k,3k+1 around the measured frame capacity k, min/max NLRI sizes, attribute-block size ladder up to the frame limit, every NOTIFICATION variant, KEEPALIVE, ROUTE-REFRESH; capability pairs: 16 pairs reaching every negotiated outcome everywhere, all 1024 pairs on 4 families (thorough). Oracle: every frame within the negotiated maximum with mutually consistent length fields (independent walker), Ok(count) = frames seen, multiset of (prefix, path-id) / next hop / attributes decoded by the peer's codec equals the input modulo the documented canonicalisation, decode(encode(decode)) fixed point; dev and release profiles.",
+    "NLRI content of flowspec / LS / MUP / SR-policy is read with the repository's decoder (framing and attributes are independent for all families). Three capability-length signatures (RFC 9072 needed) are known findings. Built by helper sub-agents (generators + oracle).",
+    "DESIGN.md §5 C04",
+)
+CLAIMED["C05"] = (
+    "exploration",
+    "bounded-exhaustive enumeration of RFC 7606 corruptions against an independent reference receiver (packet level) plus end-to-end replay of the corpus through live sessions into the RIB",
+    "12 valid base UPDATEs (legacy / MP / mixed, both attribute orders, AS width 2 and 4, all 22 attribute kinds) x a menu of ~480 corruptions each (length +-1/0, flag flips, illegal values, duplicates, omission of mandatory attributes, unknown well-known, block truncation at and inside every attribute, withdrawn/total length errors) x 4 neighbour roles; quick: all singles, thorough: also 1.07e6 pairs. Oracle: no Reach with a faulty attribute believed, treat-as-withdraw where RFC 7606 requires it, original withdrawals kept, reset only where the NLRI cannot be located, iBGP-only attributes dropped for external peers (the daemon's is_ebgp expression is read from its source). End to end (hd part): 2707 (thorough 68411) corpus cases written to a live passive session after pre-installing the affected prefixes; the Adj-RIB-In delta, NOTIFICATIONs and session fate are judged by the same reference.",
+    "IPv4/IPv6 unicast only; content of PREFIX_SID / LS / TUNNEL_ENCAP not judged. Built by helper sub-agents; 8 packet-level defects and 1 end-to-end defect (NLRI padding bits) found.",
+    "DESIGN.md §5 C05",
+)
+CLAIMED["C09"] = (
+    "exploration",
+    "full-matrix enumeration of process_nlri_change and the inbound loop checks against a reference export function written from the statement",
+    "source kind (5 peer roles, local, kernel, the receiver itself) x receiver role x RR config x confederation x add-path max x 256 attribute presence sets x 9 AS_PATH shapes x 7 next-hop kinds x 6 export policies x LLGR-stale; quick: pairwise-complete rows crossed with the full 240-cell source x receiver x RR x confed matrix (1.06e6 cases, each also through the real PendingTx); thorough: the full product (6.08e7 feasible tuples). Inbound: is_as_loop over every layout of 1-3 segments x 4 types x positions, rx_update ORIGINATOR_ID / CLUSTER_LIST cases into a TableManager, 114 live loopback sessions fed hand-written UPDATE bytes.",
+    "ExportMap is fresh per case (multi-step export state is C01). Per-peer local-as override, transport family != route family, RTC filter not covered. Built by a helper sub-agent; no violation of the statement found, 13 deliberate mutations all detected.",
+    "DESIGN.md §5 C09",
+)
+CLAIMED["C12"] = (
+    "model_checking",
+    "exhaustive enumeration over embedded small address spaces against a linear-scan RFC 6811 reference, plus fixpoint BFS over VRP maintenance histories",
+    "For 4-bit address spaces embedded at bit offsets straddling byte boundaries (IPv4 offsets 6; thorough also 14, 28, 0; IPv6 62; thorough 124, 0, 118): every VRP set of size <= 2 (528 VRPs, 139 657 sets per space; thorough also size 3 over 3-bit spaces) x every route prefix of the space x 12 origin derivations (AS_SEQUENCE tails, AS_SET tail, empty / missing / confed-only AS_PATH): state and matched / unmatched lists against the reference (1.05e8 validations quick, 1.2e9 thorough). Maintenance: insert / remove / reset / session-restart over 5 VRPs x 2 caches against a BTreeSet model to FIXPOINT (48 925 states), re-validating probe routes in every state.",
+    "Both RFC 6811 'NONE => Invalid' and GoBGP 'NotFound' accepted for AS_SET tails (Valid never). 'Randomly over the real address space' is sampling and not claimed. Built by a helper sub-agent; 2 defects found and repaired.",
+    "DESIGN.md §5 C12",
+)
+CLAIMED["C13"] = (
+    "fault_enumeration",
+    "exhaustive enumeration of conforming RTR cache scripts x delivery fragmentation x session-loss points against the real serve_inner over an in-memory duplex",
+    "Scripts from the RFC 6810/8210 grammar with <= 2 (thorough 3) incremental rounds over 3 prefixes (announce / withdraw), Cache Reset, Error Report, Router Key PDUs at any position, versions 0 and 1 (4052 scripts quick, 60 284 thorough), produced by an independent PDU encoder; delivered whole, byte-wise and split at every offset of every PDU; connection closed after every PDU; two caches on one TableManager in every segment interleaving (306 650 executions quick, 1.02e7 thorough). After each End-of-Data collect_roa for the cache equals the fold of its script, the other cache is untouched, nothing is left after the session ends, and every delivered PDU of any type is consumed (a parked client with unconsumed complete PDUs is a wedge).",
+    "Quiescence = the client has read every byte written and is parked in poll_read (tap on the duplex), bounded yield loops + watchdog (expiry = machinery error). Malformed RTR input is C03's subject. Built by a helper sub-agent; 2 defects found and repaired.",
+    "DESIGN.md §5 C13",
+)
+CLAIMED["C14"] = (
+    "model_checking",
+    "bounded-exhaustive enumeration of policy programs x routes against a reference interpreter, plus explicit-state BFS over policy CRUD histories",
+    "Prefix sets: all sets of <= 2 entries over an embedded space (nested, overlapping, sibling, zero prefix, ranges excluding the entry's own length, entries longer than the route) x ANY/INVERT x all routes, v4 and v6; AS-path sets: every single-pattern form + a regex probe x ANY/ALL/INVERT x all AS_PATHs of <= 2 segments of every type incl. empty segments; community / ext-community / large-community sets x options x lists of <= 2 values; scalar conditions at/below/above; chaining of statements (condition x disposition x action), policies of <= 2 statements, assignments of <= 2 policies, both defaults, import and export (1.27e7 evaluations quick, 1.45e8 thorough): disposition + attributes + next hop equal the reference, no panic in dev or release. CRUD: BFS depth 5 (thorough 6) over add / replace / delete of sets, statements, policies, assignments (names from pools of 2; global import/export + one per-peer export): referential integrity of everything a user holds, StillInUse for referenced objects.",
+    "Three readings of AS-path matching on odd paths (GoBGP sequence-list, flat, per-segment) accepted. Non-IPv4/6 NLRI in prefix conditions and ext/large-community actions not covered. Built by a helper sub-agent; 7 defects found and repaired.",
+    "DESIGN.md §5 C14",
+)
+CLAIMED["C19"] = (
+    "exploration",
+    "bounded-exhaustive enumeration of monitored events through the real BMP/MRT encoders (packet level) and the daemon's converters with live sessions (daemon level), independent structural readers as oracle",
+    "Packet level: BMP PeerUp (v4/v6 address combinations x OPENs from the capability ladder), PeerDown (each reason), RouteMonitoring (every family, add-path, attribute blocks up to > 4096 bytes, entry counts beyond one frame, next-hop kinds, pre/post policy, Adj-RIB-Out, Loc-RIB flags), Initiation / Termination; MRT BGP4MP(_AS4)(_ADDPATH)(_LOCAL) for all address combinations, TABLE_DUMP_V2 peer index with 0-3 peers and RIB records with 0-3 entries (44 043 records quick, 195 835 thorough, dev and release). Daemon level: 2650 table-driven scenarios through a loopback BMP station and the MRT dumper plus 96 (thorough 288) live sessions comparing PeerUp with the OPENs really exchanged. Oracle: RFC 7854 / 8671 / 9069 / 6396 / 8050 readers written from the RFCs: header length = bytes that follow, address-family flags match the addresses, exactly one BGP PDU per record that parses (with the record's add-path / AS width) to the monitored prefixes / attributes / next hop, peer indexes and entry counts consistent.",
+    "PeerDown for hold-timer expiry / FSM error / admin shutdown, Adj-RIB-Out content against a second peer, MRT rotation not covered. Built by a helper sub-agent; 5 defects found and repaired.",
+    "DESIGN.md §5 C19",
+)
+CLAIMED["C20"] = (
+    "model_checking",
+    "explicit-state BFS over the real TableManager with the kernel request tap, fold-of-requests oracle in every state",
+    "15 packs (thorough 16) of histories, each complete to depth 5 (thorough 7; the full 68-op alphabet to depth 3/4): insert / replace / remove from eBGP and iBGP peers, local and kernel sources with tying and non-tying attributes and two next hops, session loss with drop / GR-stale / mixed / LLGR-only families and reconnect with a new Source, stale and LLGR purges, soft_reset_in under import policies (reject; hand-built next-hop rewrite), next-hop reachability flips, VRFs with matching and non-matching import targets, two VRFs, two RDs sharing an inner prefix; 1 and 2 shards. After every step the drained request stream is folded: Apply per (table, prefix) equals the next-hop set of the best path and the paths tied before the router-id step (nothing without an eligible path), the same in every VRF whose import targets match; register - unregister per address equals the number of peer-learned paths using it and never goes negative; unreachable next hops exclude their paths.",
+    "Both 'best by the C02 reference order' and 'the path the RIB ranks first' accepted for the FIB clause (ranking disputes stay with C02). The netlink side and the schedule race between insert_route's early nexthop_invalid load and a concurrent flip are out of scope. Three signatures (one inner prefix imported from two RDs into one VRF) are known findings. Built by a helper sub-agent; 2 defects repaired.",
+    "DESIGN.md §5 C20",
+)
+
 REASON_NOT_YET = "no check registered yet in this revision (machinery for it is designed in DESIGN.md §5 but not built/validated); not claimed"
 
 ALL = ["C%02d" % i for i in range(1, 21)]
